@@ -7,6 +7,7 @@ import ast
 from ..core import Report, Undecided, AnalysisError
 from ..srcmodel import Model, bind_call, return_exprs
 from ..paths import walk_paths, eval_bool, strip_doc
+from ..forks import Fork
 
 FILES = ['odl/set/sets.py', 'odl/set/domain.py', 'odl/set/space.py',
          'odl/space/base_tensors.py', 'odl/space/npy_tensors.py',
@@ -668,6 +669,7 @@ def check(ctx):
     # ---- R6 membership and element fast path ------------------------------------
     _membership(ctx, rep, model)
     _derived_pspace(rep, model)
+    _derived_tensor(rep, model)
     # ---- R7 derived spaces ----------------------------------------------------
     _derived(ctx, rep, model, eqs)
     return rep
@@ -1037,6 +1039,124 @@ def _reaches(fn, node, call):
 # (a weighting object carries its exponent; a plain array / number takes the
 # `exponent` keyword, default 2) and must be the sliced weights and the
 # exponent of the parent.
+# R7d: TensorSpace._astype evaluated.  A floating-point target keeps the
+# weighting object -- which also carries the exponent -- whatever the
+# weighting is (the trivial constant 1 with exponent p included).
+def _derived_tensor(rep, model):
+    from ..symex import (Interp, Inst, ClassV, TypeV, Rec, Builtin, PyRaise,
+                         Func, is_scalar, to_rat)
+    from ..namodel import NA, NAHooks, NAInterp, DT, objarr
+    from ..ratfun import Rat
+    BT = 'odl/space/base_tensors.py'
+    fn = model.ctx.method(BT, 'TensorSpace', '_astype')
+    ci = model.get('NumpyTensorSpace')
+    wconst = model.get('NumpyTensorSpaceConstWeighting')
+    warr = model.get('NumpyTensorSpaceArrayWeighting')
+    if fn is None or ci is None or wconst is None or warr is None:
+        raise AnalysisError('anchor vanished: TensorSpace._astype / '
+                            'NumpyTensorSpace weightings')
+
+    class H(NAHooks):
+        def on_call(self, interp, f, args, kwargs, node):
+            if isinstance(f, (ClassV, TypeV)) and getattr(
+                    getattr(f, 'ci', None), 'name', None) == \
+                    'NumpyTensorSpace':
+                return Rec('made-space', args=list(args),
+                           kwargs=dict(kwargs))
+            return NotImplemented
+
+        def on_getattr(self, interp, obj, name):
+            if isinstance(obj, Rec) and name in obj.attrs:
+                return obj.attrs[name]
+            return NAHooks.on_getattr(self, interp, obj, name)
+
+        def on_decide(self, interp, cond, node):
+            if cond.rat is not None and cond.key.startswith('eq0:'):
+                return False       # generic constant c and exponent p
+            return NotImplemented
+
+    def space(kind, exponent):
+        sp = Inst(ci)
+        sp.attrs['_TensorSpace__shape'] = (2, 3)
+        sp.attrs['_TensorSpace__dtype'] = DT('float64')
+        if kind == 'array':
+            w = Inst(warr)
+            w.attrs['_ArrayWeighting__array'] = NA(objarr(
+                [[Rat.var('w%d%d' % (i, j)) for j in range(3)]
+                 for i in range(2)]), 'float64')
+        else:
+            w = Inst(wconst)
+            w.attrs['_ConstWeighting__const'] = Rat.const(1) \
+                if kind == 'const 1' else Rat.var('c')
+        w.attrs['_Weighting__exponent'] = exponent
+        w.attrs['_Weighting__impl'] = 'numpy'
+        sp.attrs['_NumpyTensorSpace__weighting'] = w
+        return sp, w
+    n = 0
+    for kind in ('const 1', 'const c', 'array'):
+        for exponent in (Rat.const(2), Rat.const(1), Rat.var('p')):
+            for target in ('float32', 'float64', 'complex64', 'complex128',
+                           'int64', 'bool'):
+                n += 1
+                cons = 'TensorSpace._astype[weighting %s, exponent %r -> ' \
+                    '%s]' % (kind, exponent, target)
+                I = NAInterp(model, {}, H())
+                sp, w = space(kind, exponent)
+                try:
+                    r = I.call_func(Func(fn, I.env_of(BT), model.get(
+                        'TensorSpace')), [sp, DT(target)], {})
+                except (Undecided, Fork) as e:
+                    rep.undecided('R7d', cons, str(e), BT, fn.lineno)
+                    continue
+                except PyRaise as e:
+                    rep.violation('R7d', cons, 'raises %s' % e.name, BT,
+                                  fn.lineno)
+                    continue
+                if not (isinstance(r, Rec) and r.kind == 'made-space'):
+                    rep.undecided('R7d', cons, 'result %r' % (r,), BT,
+                                  fn.lineno)
+                    continue
+                probs = []
+                shape = r.attrs['args'][0] if r.attrs['args'] else \
+                    r.attrs['kwargs'].get('shape')
+                if tuple(shape) != (2, 3):
+                    probs.append('shape %r' % (shape,))
+                dt = r.attrs['kwargs'].get(
+                    'dtype', r.attrs['args'][1] if len(r.attrs['args']) > 1
+                    else None)
+                if not (isinstance(dt, DT) and dt == DT(target)):
+                    probs.append('dtype %r' % (dt,))
+                if target not in ('int64', 'bool'):
+                    kw = r.attrs['kwargs']
+                    got = kw.get('weighting')
+                    if got is w:
+                        if kw.get('exponent') is not None:
+                            probs.append('weighting and exponent both given')
+                    elif got is None:
+                        # the constructor default: constant 1 with the
+                        # given exponent (2 if none)
+                        e2 = kw.get('exponent', Rat.const(2))
+                        same_e = is_scalar(e2) and (
+                            to_rat(e2) - exponent).is_zero()
+                        if kind != 'const 1' or not same_e:
+                            probs.append(
+                                'the new space gets the default weighting '
+                                '(constant 1, exponent %r) instead of the '
+                                'weighting %s with exponent %r'
+                                % (e2, kind, exponent))
+                    else:
+                        probs.append('weighting=%r is not the weighting of '
+                                     'the space' % (got,))
+                if probs:
+                    rep.violation('R7d', cons, '; '.join(probs), BT,
+                                  fn.lineno)
+                else:
+                    rep.holds('R7d', cons, 'shape, dtype%s forwarded' % (
+                        '' if target in ('int64', 'bool')
+                        else ', weighting object'))
+    rep.floor('R7d', 'derived tensor spaces', n, 50)
+
+
 def _derived_pspace(rep, model):
     import numpy as _np
     from ..symex import (Interp, Inst, ClassV, Rec, Builtin, PyRaise,
